@@ -178,29 +178,44 @@ func (p PubSubBackend[Result]) ListenForNotifications(
 		for {
 			select {
 			case <-ctx.Done():
-				replyChan <- Reply[Result]{
+				// the caller may have stopped reading: don't block on the final reply
+				select {
+				case replyChan <- Reply[Result]{
 					Error: ReplyTimeoutError{time.Since(start), ctx.Err()},
+				}:
+				default:
 				}
 				return
 			case notifyMsg, ok := <-notifyMsgs:
 				if !ok {
 					// subscriber is closed
-					replyChan <- Reply[Result]{
+					select {
+					case replyChan <- Reply[Result]{
 						Error: ReplyTimeoutError{time.Since(start), fmt.Errorf("subscriber closed")},
+					}:
+					default:
 					}
 					return
 				}
 
 				resp, ok, unmarshalErr := p.handleNotifyMsg(notifyMsg, string(params.OperationID), p.marshaler)
+				var reply *Reply[Result]
 				if unmarshalErr != nil {
-					replyChan <- Reply[Result]{
+					reply = &Reply[Result]{
 						Error: ReplyUnmarshalError{unmarshalErr},
 					}
 				} else if ok {
-					replyChan <- Reply[Result]{
+					reply = &Reply[Result]{
 						HandlerResult:       resp.HandlerResult,
 						Error:               resp.Error,
 						NotificationMessage: notifyMsg,
+					}
+				}
+				if reply != nil {
+					select {
+					case replyChan <- *reply:
+					case <-ctx.Done():
+						// the caller is gone: don't block on a reply nobody reads
 					}
 				}
 
